@@ -107,6 +107,13 @@ func createSignature(response *Response, samlResponse *samlp.ResponseType, key *
 			return fmt.Errorf("failed to sign response: %w", err)
 		}
 	case RedirectBinding:
+		if response.AcsUrl == "" {
+			// without a consumer URL the response is written into the body, where only an enveloped signature can be carried
+			if err := createPostSignature(samlResponse, key, cert, signatureAlgorithm); err != nil {
+				return fmt.Errorf("failed to sign response: %w", err)
+			}
+			return nil
+		}
 		sig, sigAlg, err := createRedirectSignature(samlResponse, key, cert, signatureAlgorithm, response.RelayState)
 		if err != nil {
 			return fmt.Errorf("failed to sign response: %w", err)
